@@ -72,7 +72,7 @@ func init() {
 	wsz := func() *core.Result { return worksize.Run(def, core.Pkgs("./lapack/gonum"), worksizeExempt) }
 	all := []canary{
 		{"ARGS.arms", "blas/gonum/level2float64.go", "(incY < 0 && len(y) <= (1-n)*incY)", "(incY < 0 && len(y) <= (1-n)*incX)", func() *core.Result { return worksize.RunArms(def, core.Pkgs("./blas/gonum")) }},
-		{"ARGS.strict", "blas/gonum/dgemm.go", "len(c) < ldc*(m-1)+n", "len(c) <= ldc*(m-1)+n", func() *core.Result { return worksize.RunArms(def, core.Pkgs("./blas/gonum")) }},
+		{"ARGS.strict", "blas/gonum/dgemm.go", "len(c) < (m-1)*ldc+n", "len(c) <= (m-1)*ldc+n", func() *core.Result { return worksize.RunArms(def, core.Pkgs("./blas/gonum")) }},
 		{"ARGS.strict", "lapack/gonum/dgetrf.go", "len(a) < (m-1)*lda+n", "len(a) <= (m-1)*lda+n", func() *core.Result { return worksize.RunArms(def, core.Pkgs("./lapack/gonum")) }},
 		{"POOL.uaf", "mat/vector.go", "v.CopyVec(n)\n\t\tputVecDenseWorkspace(n)", "putVecDenseWorkspace(n)\n\t\tv.CopyVec(n)", func() *core.Result { return pool.Run(def) }},
 		{"GLOBAL.write", "mat/pool.go", "\tw := *poolFloat64s[poolFor(uint(l))].Get().(*[]float64)\n\tw = w[:l]", "\tw := *poolFloat64s[poolFor(uint(l))].Get().(*[]float64)\n\tw = w[:l]\n\tpoolFloat64s[0].New = nil", func() *core.Result { return globalx.Run(def, core.Pkgs("./mat"), globalx.Options{}) }},
